@@ -209,18 +209,21 @@ class Linear(Part):
     chunk = 2
     timeout = 600.0
 
-    CASES = ['smib/SMIB.json', 'kundur/kundur_full.xlsx', 'ieee14/ieee14_full.xlsx']
+    CASES = ['smib/SMIB.json', 'kundur/kundur_full.xlsx', 'kundur/kundur_exdc2_zero_tb.xlsx']
+    MORE = ['kundur/kundur_sexs.xlsx', 'ieee14/ieee14_full.xlsx']       # thorough; ieee14_* sit on a limiter kink (TGOV1 4 at VMAX)
 
     def __init__(self, tier='quick'):
         self.tier = tier
 
     def describe(self, tier):
-        return (f'{self.CASES}: every state direction (every 3rd in quick for the two large cases) x (trapezoid, backeuler); '
-                f'perturbation 1e-4; 0.3 s at h = 1/240 and 1/480 against expm of the harness-assembled linearisation')
+        cases = self.CASES + (self.MORE if tier != 'quick' else [])
+        return (f'{cases}: every state direction (every 3rd in quick for the large cases) x (trapezoid, backeuler); '
+                f'perturbation 1e-4; 0.3 s at h = 1/240 and 1/480 against expm of the harness-assembled linearisation (states with a '
+                f'zero time constant eliminated like algebraic variables; operating points on a limiter kink are outside the property)')
 
     def cases(self, tier):
         out = []
-        for c in self.CASES:
+        for c in self.CASES + (self.MORE if tier != 'quick' else []):
             ss = systems.load_case(c)
             systems.quiet_tds(ss)
             ss.Toggle.u.v[:] = 0 if ss.Toggle.n else 0
@@ -264,11 +267,31 @@ class Linear(Part):
                 ss.j_update(ss.exist.pflow_tds)
                 fx, fy, gx, gy = (dense(M) for M in (dae.fx, dae.fy, dae.gx, dae.gy))
                 T = np.array(dae.Tf, dtype=float)
-                if np.any(T == 0):
-                    out.obs = dict(skipped='zero time constants')
+                # states with a zero time constant are algebraic: eliminate them together with y (Schur complement)
+                # states held at a limit by an anti-windup limiter at the operating point do not move at all: the model keeps
+                # their equation out of the step (it is not in the Jacobian), so they are constants of the linear reference
+                pegged = set()
+                for aw in ss.antiwindups:
+                    for key, _, _ in getattr(aw, 'x_set', []):
+                        pegged |= {int(a) for a in np.atleast_1d(key)}
+                zs = np.array([i for i in np.flatnonzero(T == 0) if i not in pegged], dtype=int)
+                ks = np.array([i for i in np.flatnonzero(T != 0) if i not in pegged], dtype=int)
+                if pegged:
+                    # the operating point sits on a limiter kink (a state held at its limit is released or not depending on the
+                    # sign of the perturbation): no linearisation exists there, the property's reference is undefined
+                    out.obs = dict(skipped='operating point on a limiter kink', pegged=[str(dae.x_name[i]) for i in sorted(pegged)])
                     out.nontrivial = False
                     return out
-                As = (fx - fy @ np.linalg.solve(gy, gx)) / T[:, None]
+                A0 = fx - fy @ np.linalg.solve(gy, gx)
+                if len(zs):
+                    if case['k'] in set(int(q) for q in zs):
+                        out.obs = dict(skipped='direction is a zero-time-constant (algebraic) state')
+                        out.nontrivial = False
+                        return out
+                    A0 = A0[np.ix_(ks, ks)] - A0[np.ix_(ks, zs)] @ np.linalg.solve(A0[np.ix_(zs, zs)], A0[np.ix_(zs, ks)])
+                else:
+                    A0 = A0[np.ix_(ks, ks)]
+                As = A0 / T[ks][:, None]
                 x_eq = dae.x.copy()
                 k = case['k']
                 name = dae.x_name[k]
@@ -291,9 +314,9 @@ class Linear(Part):
                 worst = 0.0
                 for tt in (0.15, 0.3):
                     i = int(np.argmin(np.abs(t - tt)))
-                    ref = expm(As * t[i]) @ dx0
+                    ref = expm(As * t[i]) @ dx0[ks]
                     scale = max(float(np.max(np.abs(ref))), float(np.max(np.abs(dx0))))
-                    worst = max(worst, float(np.max(np.abs(X[i] - ref))) / scale)
+                    worst = max(worst, float(np.max(np.abs(X[i][ks] - ref))) / scale)
                 errs.append(worst)
         except Exception as e:
             import traceback
